@@ -159,7 +159,7 @@ func runC15(c *core.Ctx) {
 			continue
 		}
 		for _, al := range []signal.Allocator{{Channels: 1, Length: 0, Capacity: 4}, {Channels: 2, Length: 2, Capacity: 4}, {Channels: 3, Length: 3, Capacity: 3}, {Channels: 4, Length: 1, Capacity: 6}} {
-			for _, kind := range []string{"later-frame-slice", "grown", "foreign-larger", "foreign-smaller", "foreign-empty"} {
+			for _, kind := range []string{"later-frame-slice", "grown", "foreign-larger", "foreign-smaller", "foreign-empty", "foreign-more-channels-same-frames", "foreign-fewer-channels-same-frames"} {
 				caseID := fmt.Sprintf("Put[%s]/%d-%d-%d/%s", t.Name, al.Channels, al.Length, al.Capacity, kind)
 				if !c.Want(caseID) {
 					continue
@@ -183,6 +183,14 @@ func runC15(c *core.Ctx) {
 					rej = t.Alloc(signal.Allocator{Channels: al.Channels, Length: al.Capacity - 1, Capacity: al.Capacity - 1})
 				case "foreign-empty":
 					rej = t.Alloc(signal.Allocator{Channels: al.Channels})
+				case "foreign-more-channels-same-frames":
+					// same per-channel capacity, different total capacity
+					rej = t.Alloc(signal.Allocator{Channels: al.Channels * 2, Length: al.Length, Capacity: al.Capacity})
+				case "foreign-fewer-channels-same-frames":
+					if al.Channels < 2 {
+						continue
+					}
+					rej = t.Alloc(signal.Allocator{Channels: al.Channels - 1, Length: al.Length, Capacity: al.Capacity})
 				}
 				// recognisable contents over the whole capacity of the rejected buffer
 				all := rej.RawAll()
@@ -236,7 +244,7 @@ func runC15(c *core.Ctx) {
 	}
 	c.Floor("conversion_mismatches", 169*12)
 	c.Floor("append_mismatches", 13*24)
-	c.Floor("put_mismatches", 13*4*5)
+	c.Floor("put_mismatches", 13*4*6)
 	c.Floor("striped_mismatches", 1000)
 }
 
